@@ -24,11 +24,24 @@ JUDGE = "SPECIFICATION Spec\nCHECK_DEADLOCK FALSE\n"
 CLAUSES = {"terminates", "verts", "inside", "overlap", "area", "clockwise", "extrude", "invalid-input"}
 
 
-def stage(ctx, name, gen_module, gen_cfg, mode, variants, sample=None):
-    g = ctx.tlc("G-" + name, "tri/" + gen_module, gen_cfg, workers=16, timeout=1800, tags=("CASE",), heap="8g")
-    ctx.require_clean(g, "G-" + name)
-    ctx.add_tlc_counts(g)
-    cases = sorted({c[1] for c in g.tagged("CASE")})
+# hand-made rectilinear polygons with long concave runs (spiral corridors, a U, a comb): the turning angle
+# accumulated from some start vertices exceeds half a turn in the "wrong" direction before it comes back
+SHAPES = [
+    [[0, 0], [5, 0], [5, 5], [0, 5], [0, 2], [3, 2], [3, 3], [1, 3], [1, 4], [4, 4], [4, 1], [0, 1]],
+    [[0, 0], [5, 0], [5, 4], [3, 4], [3, 2], [2, 2], [2, 4], [0, 4]],
+    [[0, 0], [7, 0], [7, 3], [6, 3], [6, 1], [5, 1], [5, 3], [4, 3], [4, 1], [3, 1], [3, 3], [2, 3], [2, 1], [1, 1], [1, 3], [0, 3]],
+    [[0, 0], [7, 0], [7, 7], [0, 7], [0, 2], [5, 2], [5, 5], [2, 5], [2, 4], [4, 4], [4, 3], [1, 3], [1, 6], [6, 6], [6, 1], [0, 1]],
+]
+
+
+def stage(ctx, name, gen_module, gen_cfg, mode, variants, sample=None, explicit=None):
+    if explicit is not None:
+        cases = [json.dumps(c) for c in explicit]
+    else:
+        g = ctx.tlc("G-" + name, "tri/" + gen_module, gen_cfg, workers=16, timeout=1800, tags=("CASE",), heap="8g")
+        ctx.require_clean(g, "G-" + name)
+        ctx.add_tlc_counts(g)
+        cases = sorted({c[1] for c in g.tagged("CASE")})
     if not cases:
         raise Infra("no cases for " + name)
     total = len(cases)
@@ -86,7 +99,9 @@ def run(ctx):
         stage(ctx, "poly33", "PolygonGen", PGEN % (3, 3, 6), "polygon", 0)
         stage(ctx, "poly44", "PolygonGen", PGEN % (4, 4, 5), "polygon", 2, sample=1500)
         stage(ctx, "regions", "RegionGen", RGEN % 1, "region", 0)
+        stage(ctx, "shapes", None, None, "polygon", 2, explicit=SHAPES)
     else:
+        stage(ctx, "shapes", None, None, "polygon", 6, explicit=SHAPES)
         stage(ctx, "poly33", "PolygonGen", PGEN % (3, 3, 7), "polygon", 0)
         stage(ctx, "poly44", "PolygonGen", PGEN % (4, 4, 6), "polygon", 4)
         stage(ctx, "poly53", "PolygonGen", PGEN % (5, 3, 6), "polygon", 2, sample=8000)
